@@ -407,6 +407,7 @@ template <class Mesh> RunResult HistRun<Mesh>::run() {
     // interleaving measure: distinct client-kind trigrams
     for (size_t j = 0; j + 2 < tri.size(); ++j) st.nt_tri(fnv1a(tri[j] + ">" + tri[j + 1] + ">" + tri[j + 2]));
     // destroy handles before meshes and meshes before handles in a seed-chosen order (lifetime safety under ASan)
+    if (keep_alive) return res;   // FROZEN world: the readers run on what the history built
     if (plan.seed & 1) { for (int h = 0; h < NHELD; ++h) held[h].h.reset(); reps.clear(); }
     else { reps.clear(); for (int h = 0; h < NHELD; ++h) held[h].h.reset(); }
     return res;
